@@ -165,6 +165,42 @@ def build_go(tags=""):
         return rc == 0, out, binp
 
 
+def run_driver_sharded(driver_cmd, cases, model, shards=16):
+    """Run ml/driver over the case file, in parallel shards of whole lines; returns an
+    error text or None. Output lines stay in input order."""
+    lines = open(cases).read().splitlines(True)
+    n = len(lines)
+    k = max(1, min(shards, n // 64))
+    env = dict(os.environ, OCAMLRUNPARAM="s=8M")
+    if k == 1:
+        with open(cases) as fin, open(model, "w") as fout:
+            p = subprocess.run([os.path.join(ML, "driver"), driver_cmd], stdin=fin, stdout=fout, stderr=subprocess.PIPE, timeout=3000, env=env)
+        return None if p.returncode == 0 else p.stderr.decode()
+    procs = []
+    per = (n + k - 1) // k
+    for i in range(k):
+        part = cases + ".part%d" % i
+        with open(part, "w") as f:
+            f.writelines(lines[i * per:(i + 1) * per])
+        fin = open(part)
+        fout = open(model + ".part%d" % i, "w")
+        procs.append((subprocess.Popen([os.path.join(ML, "driver"), driver_cmd], stdin=fin, stdout=fout, stderr=subprocess.PIPE, env=env), fin, fout, part))
+    err = None
+    for (p, fin, fout, part) in procs:
+        _, e = p.communicate(timeout=3000)
+        fin.close()
+        fout.close()
+        if p.returncode != 0:
+            err = (err or "") + e.decode()
+    with open(model, "w") as out:
+        for i in range(k):
+            mp = model + ".part%d" % i
+            out.write(open(mp).read())
+            os.remove(mp)
+            os.remove(cases + ".part%d" % i)
+    return err
+
+
 # --------------------------------------------------------------------------
 # a check run
 
@@ -250,10 +286,9 @@ class Ctx:
             return None
         cases = os.path.join(self.dir, name + ".cases")
         model = os.path.join(self.dir, name + ".model")
-        with open(cases) as fin, open(model, "w") as fout:
-            p = subprocess.run([os.path.join(ML, "driver"), driver_cmd], stdin=fin, stdout=fout, stderr=subprocess.PIPE, timeout=3000)
-        if p.returncode != 0:
-            self.broken("model-run:" + name, "the model driver failed on stream " + name, p.stderr.decode()[-3000:])
+        err = run_driver_sharded(driver_cmd, cases, model)
+        if err:
+            self.broken("model-run:" + name, "the model driver failed on stream " + name, err[-3000:])
             return None
         mism = []
         n = 0
